@@ -59,6 +59,14 @@ def explicit_raises(prog, rep):
                 rep.check(not foreign, "RAISE-CLASS", fi.short, f"re-raise in `except {', '.join(caught)}`", "only query errors are re-raised", f"a bare `raise` lets the caught {foreign} escape from the query front-end instead of translating it into a query error", fi.loc(r), expected=sorted(good), found=foreign)
                 continue
             name = norm(r.exc.func) if isinstance(r.exc, ast.Call) else norm(r.exc)
+            # an error built by a helper of the module: what every return of the helper constructs
+            if name not in good and isinstance(r.exc, ast.Call) and isinstance(r.exc.func, ast.Name):
+                hf_ = fi.mod.funcs.get(r.exc.func.id)
+                if hf_ is not None:
+                    rr_ = [x for x in walk_own(hf_.node) if isinstance(x, ast.Return)]
+                    built = {norm(x.value.func) for x in rr_ if isinstance(x.value, ast.Call)}
+                    if rr_ and len(built) == 1 and all(isinstance(x.value, ast.Call) for x in rr_) and next(iter(built)) in good:
+                        name = next(iter(built))
             if name in good:
                 rep.ok("RAISE-CLASS", fi.short, f"raise {name}", "query error", fi.loc(r))
             elif name == "NotImplementedError" and fi.cls is not None and fi.cls.name == "QToken":
@@ -92,6 +100,25 @@ def explicit_raises(prog, rep):
     g = cfg_of(vb)
     t = norm(vb.node)
     ok = "if bucketname in datastore.buckets(): return else: raise QueryFunctionException(" in t or ("if bucketname not in datastore.buckets(): raise QueryFunctionException(" in t)
+    if not ok:
+        # by role: a raise of a function error (directly or through an error-building helper) on the branch of a membership test
+        # in the bucket listing that says "not listed"
+        for r_ in [x for x in walk_own(vb.node) if isinstance(x, ast.Raise) and x.exc is not None]:
+            nm_ = norm(r_.exc.func) if isinstance(r_.exc, ast.Call) else norm(r_.exc)
+            hf_ = vb.mod.funcs.get(nm_) if isinstance(r_.exc, ast.Call) and isinstance(r_.exc.func, ast.Name) else None
+            if hf_ is not None:
+                built_ = {norm(x.value.func) for x in walk_own(hf_.node) if isinstance(x, ast.Return) and isinstance(x.value, ast.Call)}
+                nm_ = next(iter(built_)) if len(built_) == 1 else nm_
+            p_, child_ = parent(r_), r_
+            while p_ is not None and not isinstance(p_, ast.If):
+                child_, p_ = p_, parent(p_)
+            if p_ is None or nm_ != "QueryFunctionException":
+                continue
+            t_ = norm(p_.test)
+            in_body = any(child_ is b_ or any(child_ is y for y in ast.walk(b_)) for b_ in p_.body)
+            p0 = vb.params[1] if len(vb.params) > 1 else "bucketname"
+            if (in_body and t_ in (f"{p0} not in datastore.buckets()", f"not {p0} in datastore.buckets()")) or (not in_body and t_ == f"{p0} in datastore.buckets()"):
+                ok = True
     rep.check(ok, "RAISE-CLASS", vb.short, "unknown bucket -> function error", "", "_verify_bucket_exists does not raise a function error for an unknown bucket", vb.loc())
 
 
